@@ -6,6 +6,8 @@ import (
 	"io"
 	"log/slog"
 	"os"
+	"runtime/debug"
+	"runtime/pprof"
 
 	"verif.local/mc/report"
 )
@@ -23,6 +25,7 @@ func register(id, level string, run func(*report.Check)) {
 }
 
 func main() {
+	debug.SetGCPercent(400)
 	slog.SetDefault(slog.New(slog.NewTextHandler(io.Discard, nil)))
 	if len(os.Args) < 2 {
 		fmt.Fprintln(os.Stderr, "usage: mcheck <property> [quick|thorough] [--replay file]")
@@ -34,6 +37,11 @@ func main() {
 		os.Exit(3)
 	}
 	k := report.New(os.Args[1], c.level, os.Args[2:])
+	if pf := os.Getenv("VERIF_PPROF"); pf != "" {
+		f, _ := os.Create(pf)
+		pprof.StartCPUProfile(f)
+		k.AtExit = pprof.StopCPUProfile
+	}
 	c.run(k)
 	k.Finish()
 }
